@@ -9,7 +9,7 @@ from pathlib import Path
 
 VERIF = Path(__file__).resolve().parents[2]
 SPECS = VERIF / "specs"
-EVIDENCE = VERIF / "evidence"
+EVIDENCE = Path(os.environ.get("VERIF_EVIDENCE_DIR") or VERIF / "evidence")   # redirected when a seeded change is evaluated
 REPLAYS = EVIDENCE / "replays"
 REPO = Path(os.environ.get("HY_REPO", "/repo"))
 PY = "/venv/bin/python"
